@@ -287,6 +287,10 @@ class EvoWorld(World):
             if kind == "to_t0":
                 return self.t0
             return round(self.tcur - r.uniform(0.05, 1.0), 4)
+        if c < 0.07:
+            # the usual way to ask for a sweep: an evenly spaced numpy array
+            start = round(self.tcur + r.choice([0.0, 0.0, r.uniform(0.0, 0.5)]), 4)
+            return {"k": "at_times", "linspace": [start, round(start + r.uniform(0.3, 1.5), 4), r.choice([3, 4, 6])]}
         if c < 0.2:
             n = r.choice([1, 2, 3])
             ts = []
@@ -333,10 +337,17 @@ class EvoWorld(World):
         self.tcur = float(evo.t)
 
     def _op_at_times(self, op):
-        ts = list(op["ts"])
-        if self.knobs["method"] != "solve":
-            ts = [max(t, self.tcur) for t in ts]
-            ts = list(np.maximum.accumulate(ts)) if ts else ts
+        if op.get("linspace"):
+            a, b, n = op["linspace"]
+            if self.knobs["method"] != "solve" and a < self.tcur:
+                a, b = self.tcur, self.tcur + (b - a)
+            ts = np.linspace(a, b, int(n))
+            self.stats.probe("at_times_linspace_array")
+        else:
+            ts = list(op["ts"])
+            if self.knobs["method"] != "solve":
+                ts = [max(t, self.tcur) for t in ts]
+                ts = list(np.maximum.accumulate(ts)) if ts else ts
         st, gen = self.call(lambda: self.evo.at_times(ts))
         if st == "rejected":
             raise Skip()
@@ -485,7 +496,7 @@ class EvoWorld(World):
     def simplify_op(op):
         if op.get("stop_after"):
             yield {k: v for k, v in op.items() if k != "stop_after"}
-        if op.get("k") == "at_times" and len(op["ts"]) > 1:
+        if op.get("k") == "at_times" and len(op.get("ts") or []) > 1:
             yield {**op, "ts": op["ts"][:1]}
 
     @staticmethod
